@@ -31,7 +31,7 @@ Drift(post, obs) ==
 \cup (IF \E s \in Series : obs.conf[s] /\ post.next[s] # obs.next[s] THEN {"drift:timer"} ELSE {})
 
 TInit == /\ tid \in 1..Len(Traces) /\ l = 1 /\ flags = {}
-         /\ a = InitA /\ nin = 0 /\ emitted = <<>>
+         /\ a = [InitA EXCEPT !.now = IF T.kind = "run" THEN T.start ELSE 0] /\ nin = 0 /\ emitted = <<>>
          /\ recvAll = [s \in Series |-> <<>>] /\ sinceEmit = [s \in Series |-> <<>>]
          /\ expired = {} /\ viol = {}
 
@@ -59,12 +59,15 @@ TStep ==
        ELSE LET r == TickF(a)
                 post == r[1]
                 em == [k \in 1..Len(e.em) |-> <<e.em[k][1], e.em[k][2], e.em[k][3]>>]
-                gone == {<<s, i>> \in Series \X (0..T.maxts) : Idx(a.buf[s], i) # 0 /\ Idx(obs.buf[s], i) = 0} IN
+                \* intervals that leave the retention horizon by the specified rules (age, then the newest MAX+2)
+                gone == {<<s, i>> \in Series \X (0..T.maxts) : Idx(a.buf[s], i) # 0 /\ Idx(post.buf[s], i) = 0}
+                early == \E s \in Series : \E k \in 1..Len(post.buf[s]) : Idx(obs.buf[s], post.buf[s][k].i) = 0 IN
             /\ a' = obs
             /\ emitted' = <<>>
             /\ flags' = flags \cup Drift(post, obs)
                  \cup UNION {EmitViol(em[k], sinceEmit, recvAll, expired) : k \in 1..Len(em)}
                  \cup (IF \E k \in 1..Len(em) : em[k][2] % F # 0 THEN {"aligned"} ELSE {})
+                 \cup (IF early THEN {"dropped-within-horizon"} ELSE {})
                  \cup (IF {em[k] : k \in 1..Len(em)} # {r[2][k] : k \in 1..Len(r[2])} THEN {"drift:emissions"} ELSE {})
                  \cup (IF \E s \in Due([a EXCEPT !.now = @ + 1]) : Len(obs.buf[s]) > M + 2
                          THEN {"more-than-M+2-after-flush"} ELSE {})
